@@ -93,6 +93,19 @@ def try_builtin(it, callee, args):
             return dom.max(a[0], a[1])
         if name == "abs":
             return dom.abs(a[0])
+        if name == "min":
+            return dom.min(a[0], a[1])
+        if name == "powi" and isinstance(args[1], int) and 0 <= args[1] <= 16:
+            r = dom.const(1.0)
+            for _ in range(args[1]):
+                r = dom.mul(r, a[0])
+            return r
+        if name == "is_nan" and a[0].conc is not None:
+            return a[0].conc != a[0].conc
+        try:
+            return dom.unary_uf(name, a[0])
+        except ValueError:
+            pass
         raise Unsupported("f64 method " + name)
     # ---- operator traits on f64 / &f64
     m = re.match(r"^<&?(?:'\w+ )?f64 as (Add|Sub|Mul|Div|Neg)(?:<&?(?:'\w+ )?f64>)?>::(\w+)$", c)
